@@ -663,7 +663,7 @@ func checkNilDerefSites(c *Ctx, w *World) {
 			// the call is an if-condition; its then-branch must call AssertNilDeref (directly or via assertNilDerefBase)
 			var is *ast.IfStmt
 			for _, e := range enclosingStmts(fd.Body, call) {
-				if x, ok := e.(*ast.IfStmt); ok && x.Cond.Pos() <= call.Pos() && call.End() <= x.Cond.End() {
+				if x, ok := e.(*ast.IfStmt); ok && within(x.Cond, call) {
 					is = x
 				}
 			}
